@@ -150,8 +150,9 @@ impl VisitMut for OperationTransformVisitor<'_> {
                     opv_with_child_ctx.ident_provider,
                 );
                 if transform_result.is_modified() {
+                    // lowering an optional chain emits no hook by itself: status and telemetry
+                    // are updated when the lowered call is instrumented below
                     expr.map_with_mut(|e| transform_result.expr.unwrap_or(e));
-                    opv_with_child_ctx.update_status(transform_result.status, transform_result.tag);
                 }
 
                 expr.visit_mut_children_with(opv_with_child_ctx);
